@@ -96,6 +96,13 @@ def h(t, part):
         sid = live[(e, ns)]
         if kind == 'connect':
             if sid is not None:
+                # a second CONNECT for a namespace the client is still on (a retry, a hostile client): refused, and the
+                # established connection keeps its session (check_all below)
+                if w.connect(e, ns) is not None:
+                    return Fail('session:duplicate-connect-accepted', '%s %s' % (e, ns))
+                r = check_all('after a duplicate CONNECT on %s %s' % (e, ns))
+                if r:
+                    return r
                 continue
             new = w.connect(e, ns)
             if new is None:
@@ -205,7 +212,7 @@ CHECKS = [dict(name='sessions', fn=h, parts=parts, budget={'quick': 180, 'thorou
 META = dict(
     explanation='Real get_session/save_session/session() of Server and AsyncServer on the fake engine.io session store, '
                 'against a reference map sid -> contents; after every operation every live session is read back.',
-    bounds={'quick': 'histories of 3 operations from {CONNECT, save_session, session() block, client DISCONNECT, '
+    bounds={'quick': 'histories of 3 operations from {CONNECT (a duplicate one when the slot is connected), save_session, session() block, client DISCONNECT, '
                      'server.disconnect} x 3 slots (e0:/, e0:/a, e1:/) + {transport loss and re-open} x 2 transports, '
                      'starting with all three slots connected; also save_session({}), two nested session() blocks, a block left by an exception, and a disconnect handler reading the session; session '
                      'values are dicts with a symbolic int',
